@@ -373,6 +373,17 @@ static void runProgram(const std::string& kind, double a, double b, double c,
     hashMesh(o, "ext.", Manifold::Extrude(cs.ToPolygons(), 1.0));
   } else if (kind == "tricloud") {
     hashTris(o, "", Triangulate(cloudPolys(n, static_cast<int>(b)), -1, true));
+  } else if (kind == "pinch") {
+    // two pockets that touch along one vertical edge, cut into the top of a
+    // block that shares its Impl with a sphere (so P has > 1e4 halfedges and
+    // AppendWholeEdges hands out face slots in parallel): faces whose boundary
+    // touches itself at a point
+    Manifold P = Manifold::Compose({Manifold::Cube(vec3(4.0, 4.0, 2.0)),
+                                    Manifold::Sphere(1.0, n).Translate(vec3(10, 0, 0))});
+    Manifold Q = Manifold::Cube(vec3(1, 1, 2)).Translate(vec3(1, 1, 1)) +
+                 Manifold::Cube(vec3(1, 1, 2)).Translate(vec3(2, 2, 1));
+    hashMesh(o, "sub.", P - Q);
+    hashMesh(o, "and.", P ^ Q.Rotate(0, 0, b));
   } else if (kind == "dedupe") {
     Manifold m(sharedEdgeMesh(n));
     hashMesh(o, "", m);
